@@ -494,6 +494,7 @@ func runC05(c *Ctx) {
 		return strings.HasPrefix(k, "public-class-seals-neutered-key")
 	})
 	checkLockStateTestedUnderManagerMutex(c, "C05-R3")
+	checkWipePrecedesDroppingReference(c, "C05-R3")
 	checkRowRewrites(c, "C05-R3")
 	checkAccountWithoutPrivateKey(c, "C05-R3")
 	checkPendingDerivationsHaveAccounts(c, "C05-R3")
